@@ -338,9 +338,18 @@ package iavl
 
 // ---------------------------------------------------------------- reference-root reader (C13: total on arbitrary stored marker bytes)
 
+// what the reader makes of the root records: a legacy record (second lookup) that exists resolves the version —
+// to the empty tree when its value is empty (how the legacy library recorded a version without keys), to the
+// recorded hash otherwise; only an absent record means the version does not exist
 //@ func (*nodeDB).GetRoot(ndb, version) (key, err)
-//@   props C13 C14
+//@   props C13 C14 C16
 //@   requires ndb != nil && ndb.db != nil
+//@   macro legacyread = calls("KVStoreWithBatch).Get@2") == 1 && result("KVStoreWithBatch).Get@2", 1) == nil
+//@   macro legacyval = result("KVStoreWithBatch).Get@2", 0)
+//@   ensures [legacy-empty-version-exists] legacyread && legacyval != nil && len(legacyval) == 0 ==> err == nil && key == nil
+//@   ensures [legacy-version-resolves] legacyread && legacyval != nil && len(legacyval) > 0 ==> err == nil && key == legacyval
+//@   ensures [legacy-absent] legacyread && legacyval == nil ==> err == ErrVersionDoesNotExist
+//@   ensures [empty-version-exists] calls("KVStoreWithBatch).Get@1") == 1 && result("KVStoreWithBatch).Get@1", 1) == nil && result("KVStoreWithBatch).Get@1", 0) != nil && len(result("KVStoreWithBatch).Get@1", 0)) == 0 ==> err == nil && key == nil
 //@   modifies nodeDB.legacyLatestVersion[*], nodeDB.mtx[*]
 
 //@ func (*nodeDB).legacyRootKey(ndb, version) (k)
